@@ -1,7 +1,121 @@
-//! Further operations
-use serde_json::Value;
+//! Comparison, hashing (C02, C03) and further operations
+use std::cmp::Ordering;
+use std::hash::{Hash, Hasher};
+
+use bigdecimal::{BigDecimal, BigDecimalRef};
+use serde_json::{json, Value};
+
+use crate::wire::*;
+
+fn ord_num(o: Ordering) -> i64 {
+    match o {
+        Ordering::Less => -1,
+        Ordering::Equal => 0,
+        Ordering::Greater => 1,
+    }
+}
+
+/// Hasher that records the byte stream it is fed (digested with FNV-1a-128 for the trace)
+pub struct Recorder {
+    pub fnv: u128,
+    pub len: u64,
+}
+impl Recorder {
+    pub fn new() -> Recorder {
+        Recorder { fnv: 0x6c62272e07bb014262b821756295c58d, len: 0 }
+    }
+}
+impl Hasher for Recorder {
+    fn finish(&self) -> u64 {
+        self.fnv as u64
+    }
+    fn write(&mut self, bytes: &[u8]) {
+        for b in bytes {
+            self.fnv ^= *b as u128;
+            self.fnv = self.fnv.wrapping_mul(0x0000000001000000000000000000013B);
+        }
+        self.len += bytes.len() as u64;
+    }
+}
+
+pub const CMP_FORMS: [&str; 18] = [
+    "eq_val", "ne_val", "lt_val", "le_val", "gt_val", "ge_val", "cmp_val", "partial_cmp_val",
+    "eq_dref", "ne_dref", "eq_dref_ref", "lt_dref", "le_dref", "gt_dref", "ge_dref", "cmp_dref", "partial_cmp_dref",
+    "eq_ref",
+];
 
 pub fn exec_more(ev: &Value) -> Value {
     let op = ev["op"].as_str().expect("op");
-    panic!("HARNESS: unknown op {}", op)
+    let form = ev.get("form").and_then(|f| f.as_str()).unwrap_or("");
+    match op {
+        // ---------------------------------------------------------------- comparison (C02)
+        "cmp" => {
+            let a = json_to_dec(&ev["a"]);
+            let b = json_to_dec(&ev["b"]);
+            let (ra, rb): (BigDecimalRef, BigDecimalRef) = (a.to_ref(), b.to_ref());
+            match form {
+                "eq_val" => json!({"b": a == b}),
+                "ne_val" => json!({"b": a != b}),
+                "eq_ref" => json!({"b": &a == &b}),
+                "lt_val" => json!({"b": a < b}),
+                "le_val" => json!({"b": a <= b}),
+                "gt_val" => json!({"b": a > b}),
+                "ge_val" => json!({"b": a >= b}),
+                "cmp_val" => json!({"i": ord_num(a.cmp(&b))}),
+                "partial_cmp_val" => json!({"i": ord_num(a.partial_cmp(&b).expect("partial_cmp is total"))}),
+                "eq_dref" => json!({"b": ra == rb}),
+                "ne_dref" => json!({"b": ra != rb}),
+                "eq_dref_ref" => json!({"b": ra == &b}),
+                "lt_dref" => json!({"b": ra < rb}),
+                "le_dref" => json!({"b": ra <= rb}),
+                "gt_dref" => json!({"b": ra > rb}),
+                "ge_dref" => json!({"b": ra >= rb}),
+                "cmp_dref" => json!({"i": ord_num(ra.cmp(&rb))}),
+                "partial_cmp_dref" => json!({"i": ord_num(ra.partial_cmp(&rb).expect("partial_cmp is total"))}),
+                _ => panic!("HARNESS: unknown cmp form {}", form),
+            }
+        }
+        "maxmin" => {
+            let a = json_to_dec(&ev["a"]);
+            let b = json_to_dec(&ev["b"]);
+            match form {
+                "max" => json!({"d": dec_to_json(&a.max(b))}),
+                "min" => json!({"d": dec_to_json(&a.min(b))}),
+                "max_dref" => json!({"d": dec_to_json(&a.to_ref().max(b.to_ref()).to_owned())}),
+                "min_dref" => json!({"d": dec_to_json(&a.to_ref().min(b.to_ref()).to_owned())}),
+                _ => panic!("HARNESS: unknown maxmin form {}", form),
+            }
+        }
+        "sort" => {
+            let mut xs: Vec<BigDecimal> = ev["xs"].as_array().expect("xs").iter().map(json_to_dec).collect();
+            match form {
+                "sort" => xs.sort(),
+                "sort_unstable" => xs.sort_unstable(),
+                "sort_dref" => {
+                    let mut rs: Vec<BigDecimalRef> = xs.iter().map(|x| x.to_ref()).collect();
+                    rs.sort();
+                    let out: Vec<BigDecimal> = rs.iter().map(|r| r.to_owned()).collect();
+                    return json!({"ds": out.iter().map(dec_to_json).collect::<Vec<_>>()});
+                }
+                _ => panic!("HARNESS: unknown sort form {}", form),
+            }
+            json!({"ds": xs.iter().map(dec_to_json).collect::<Vec<_>>()})
+        }
+        // ---------------------------------------------------------------- hashing (C03)
+        "hash" => {
+            let a = json_to_dec(&ev["a"]);
+            let mut rec = Recorder::new();
+            a.hash(&mut rec);
+            let mut dh = std::collections::hash_map::DefaultHasher::new();
+            a.hash(&mut dh);
+            json!({"h": format!("{:032x}", rec.fnv), "len": rec.len, "dh": format!("{:016x}", dh.finish())})
+        }
+        "hashset" => {
+            // user-level consequence: equal values collide in a HashSet
+            let xs: Vec<BigDecimal> = ev["xs"].as_array().expect("xs").iter().map(json_to_dec).collect();
+            let set: std::collections::HashSet<BigDecimal> = xs.into_iter().collect();
+            json!({"i": set.len()})
+        }
+        _ => crate::exec4::exec_more(ev),
+    }
 }
